@@ -175,9 +175,19 @@ func c09Record(dir string, cfg c09Config) (b0 []byte, ops []lite.VfsOp, endDB, e
 }
 
 func runC09(r *ev.Run) {
-	r.Rule = "real SQLite write transactions (one-row autocommit update, small update, spilling bulk insert with cache_size=1, file-growing insert, delete with auto-vacuum truncation, schema change, spilled rollback) recorded under a logging VFS, journal modes DELETE/TRUNCATE/PERSIST, page sizes {512 (+1024, 4096 thorough)}, sector sizes {512, 4096}; for the log of N file operations: every prefix 0..N (the writer process dies before operation k; completed system calls persist) and for every write its torn variants (first 512 bytes, first half rounded to 512; for small writes every 4-byte prefix); oracle: real SQLite opens a copy of the pair, performs its own recovery and dumps it; sqlittle on the original either fails or returns exactly that dump; from the commit point on (journal deleted / truncated / header zeroed) and before the first operation it must succeed. conformance: replaying the whole log reproduces the files the real run left behind, byte for byte. non-trivial = images with a journal on disk"
+	r.Rule = "real SQLite write transactions (one-row autocommit update, small update, spilling bulk insert with cache_size=1, file-growing insert, delete with auto-vacuum truncation, schema change, spilled rollback) recorded under a logging VFS, journal modes DELETE/TRUNCATE/PERSIST, page sizes {512 (+1024, 4096 thorough)}, sector sizes {512, 4096}; for the log of N file operations: every prefix 0..N (the writer process dies before operation k; completed system calls persist) and for every write its torn variants (first 512 bytes, first half rounded to 512; for small writes every 4-byte prefix); oracle: real SQLite opens a copy of the pair, performs its own recovery and dumps it; sqlittle on the original either fails or returns exactly that dump; every image is read by a fresh handle and by handles opened before the writer started: one that read everything, one that was only opened, one that only listed the tables, and (operation boundaries) one that was refused a read once while another process held EXCLUSIVE; from the commit point on (journal deleted / truncated / header zeroed) and before the first operation it must succeed. conformance: replaying the whole log reproduces the files the real run left behind, byte for byte. non-trivial = images with a journal on disk"
 	dir := ev.TmpDir("c09")
 	defer os.RemoveAll(dir)
+	c09Peers = make(chan *Peer, 8)
+	for i := 0; i < cap(c09Peers); i++ {
+		p, err := StartPeer()
+		if err != nil {
+			r.Harness("peer: %v", err)
+			return
+		}
+		defer p.Stop()
+		c09Peers <- p
+	}
 	txns := c09Txns()
 	var cfgs []c09Config
 	modes := []string{"DELETE", "TRUNCATE", "PERSIST"}
@@ -296,9 +306,16 @@ func runC09(r *ev.Run) {
 			// ... opened before but never used (only the header is remembered), or used for the table list only
 			c09ImageKind(r, dir, fmt.Sprintf("c%d-o%d", ci, ii), cfg, &f, desc, mustSucceed, im.k, opsS, b0, "opened-only")
 			c09ImageKind(r, dir, fmt.Sprintf("c%d-s%d", ci, ii), cfg, &f, desc, mustSucceed, im.k, opsS, b0, "schema-only")
+			if im.torn < 0 {
+				// ... or was refused a read once (another process held the EXCLUSIVE lock), then read fine
+				c09ImageKind(r, dir, fmt.Sprintf("c%d-r%d", ci, ii), cfg, &f, desc, mustSucceed, im.k, opsS, b0, "refused-before")
+			}
 		})
 	}
 }
+
+// peers (other processes) that can hold SQLite's EXCLUSIVE lock on a file of this process
+var c09Peers chan *Peer
 
 func c09Image(r *ev.Run, dir, name string, cfg c09Config, f *c09Files, desc string, mustSucceed bool, k int, opsS []string, before []byte) {
 	c09ImageKind(r, dir, name, cfg, f, desc, mustSucceed, k, opsS, before, "long-lived")
@@ -335,6 +352,23 @@ func c09ImageKind(r *ev.Run, dir, name string, cfg c09Config, f *c09Files, desc 
 		case "long-lived":
 			if _, err := LittleDump(long.H, long.D); err != nil {
 				r.Harness("C09 read before: %v", err)
+				return
+			}
+		case "refused-before":
+			p := <-c09Peers
+			st, _ := p.Do("open " + orig)
+			if st == "ok" {
+				st, _ = p.Do("exec BEGIN EXCLUSIVE")
+			}
+			if st == "ok" {
+				LittleDump(long.H, long.D) // refused (what it returns is C07's business)
+				p.Do("exec ROLLBACK")
+			}
+			p.Do("close")
+			c09Peers <- p
+			os.Remove(orig + "-journal")
+			if _, err := LittleDump(long.H, long.D); err != nil {
+				r.Harness("C09 read after the refused read: %v", err)
 				return
 			}
 		case "schema-only":
